@@ -29,7 +29,7 @@ pub mod ut1;
 pub mod leap_seconds;
 
 use crate::duration::{Duration, Unit};
-use crate::errors::{DurationError, ParseSnafu};
+use crate::errors::DurationError;
 use crate::leap_seconds::{LatestLeapSeconds, LeapSecondProvider};
 use crate::{
     HifitimeError, MonthName, TimeScale, TimeUnits, BDT_REF_EPOCH, ET_EPOCH_S, GPST_REF_EPOCH,
@@ -38,7 +38,6 @@ use crate::{
 use core::cmp::Eq;
 use core::str::FromStr;
 pub use gregorian::is_gregorian_valid;
-use snafu::ResultExt;
 
 #[cfg(not(kani))]
 use crate::ParsingError;
@@ -993,14 +992,16 @@ impl FromStr for Epoch {
             };
 
             // This is a valid numerical format.
-            // Parse the time scale from the last three characters (TS trims white spaces).
-            let ts_str = s.get(s.len() - 3..).ok_or(HifitimeError::Parse {
-                source: ParsingError::TimeSystem,
-                details: "parsing from string",
-            })?;
-            let ts = TimeScale::from_str(ts_str).with_context(|_| ParseSnafu {
-                details: "parsing from string",
-            })?;
+            // Parse the time scale from the last five, four or three bytes (TS trims white spaces): the longest
+            // suffix that is a time scale, since GPST, QZSS and QZSST are longer than three bytes.
+            let (ts, ts_str) = [5_usize, 4, 3]
+                .iter()
+                .filter_map(|n| s.len().checked_sub(*n).and_then(|i| s.get(i..)))
+                .find_map(|t| TimeScale::from_str(t).ok().map(|ts| (ts, t)))
+                .ok_or(HifitimeError::Parse {
+                    source: ParsingError::TimeSystem,
+                    details: "parsing from string",
+                })?;
             // Iterate through the string to figure out where the numeric data starts and ends.
             let start_idx = format.len();
             // Remove the time scale as it was written (e.g. "GPS" is three bytes although GPST prints as four).
@@ -1016,26 +1017,9 @@ impl FromStr for Epoch {
             };
 
             match format {
-                "JD" => match ts {
-                    TimeScale::ET => Ok(Self::from_jde_et(value)),
-                    TimeScale::TAI => Ok(Self::from_jde_tai(value)),
-                    TimeScale::TDB => Ok(Self::from_jde_tdb(value)),
-                    TimeScale::UTC => Ok(Self::from_jde_utc(value)),
-                    _ => Err(HifitimeError::Parse {
-                        source: ParsingError::UnsupportedTimeSystem,
-                        details: "for Julian Date",
-                    }),
-                },
-                "MJD" => match ts {
-                    TimeScale::TAI => Ok(Self::from_mjd_tai(value)),
-                    TimeScale::UTC | TimeScale::GPST | TimeScale::BDT | TimeScale::GST => {
-                        Ok(Self::from_mjd_in_time_scale(value, ts))
-                    }
-                    _ => Err(HifitimeError::Parse {
-                        source: ParsingError::UnsupportedTimeSystem,
-                        details: "for Modified Julian Date",
-                    }),
-                },
+                // The (Modified) Julian Date is counted in the time scale that is written, whichever it is.
+                "JD" => Ok(Self::from_jde_in_time_scale(value, ts)),
+                "MJD" => Ok(Self::from_mjd_in_time_scale(value, ts)),
                 "SEC" => match ts {
                     TimeScale::TAI => Ok(Self::from_tai_seconds(value)),
                     TimeScale::ET => Ok(Self::from_et_seconds(value)),
